@@ -1,4 +1,4 @@
-\* three static voters with crash and restart (loss of volatile state), exhaustive
+\* snapshots with one crash and more timers (thorough tier, time-boxed)
 CONSTANTS
   Node = {a, b, c}
   InitVoters = {a, b, c}
@@ -7,13 +7,13 @@ CONSTANTS
   MaxTerm = 2
   MaxLog = 4
   MaxTimer = 4
-  MaxAE = 1
+  MaxAE = 3
   MaxClient = 1
   MaxCrash = 1
-  MaxHalf = 1
+  MaxHalf = 0
   MaxCfg = 0
   MaxRead = 0
-  MaxSnap = 0
+  MaxSnap = 1
   SnapSize = 1
   AsyncKinds = {}
   MaxNet = 0
